@@ -19,7 +19,7 @@ import family
 import gen
 import lpev
 import opsprop
-from props import c01, c02, c03, c04, c07, c08, c11, c12, c13, c15, c16
+from props import c01, c02, c03, c04, c07, c08, c09, c11, c12, c13, c15, c16
 from tlcrun import run_tlc, stats_of, require_clean
 from vcommon import Report, digest, die, run_dir, seed
 
@@ -215,6 +215,27 @@ def main(tier, replay=None):
         cases = mod.gen_cases("quick")[: n if q else 4 * n]
         absorb(mod.PROP, lpev.run(PROP, tier, cases, mod.run_case, "", owner=lambda ev: "none", rep=rep))
     absorb("var-free", lpev.run(PROP, tier, adversarial_lp_cases(sd, 40 if q else 400), adversarial_lp, "", owner=lambda ev: "none", rep=rep))
+    # (a') the parser on the spellings and malformations of C09, and the sessions of C13: exception class only
+    pcases = c09.gen_cases("quick")[: 150 if q else 840]
+    ptraces = family.pmap(c09.run_case, pcases, chunksize=2)
+    pverd = family.judge_traces(rep, "TraceParse", "TraceParse.cfg", ptraces, rd, batch=300)
+    for t in ptraces:
+        for l, ev in enumerate(t["ev"], 1):
+            totals["evaluations"] += 1
+            kind, detail = pverd[(t["id"], l, "parse")]
+            exc = kind == "violation" and detail.startswith("exception")
+            key = "parser/%s/%s" % (ev["kind"], "violation:exception" if exc else ("ok" if kind == "ok" else "not-judged-here"))
+            counts[key] = counts.get(key, 0) + 1
+            nontriv.add(digest(["parse", ev["string"]]))
+            if exc:
+                rep.violation({"layer": "parser", "kind": ev["kind"], "outcome": ev["outcome"]}, {"family": "C09", "string": ev["string"], "outcome": ev["outcome"]})
+    totals["traces"] += len(ptraces)
+    sess = c13.main(tier, None, prop=PROP, rep=rep)
+    totals["evaluations"] += sess["session_steps"]
+    totals["traces"] += sess["session_histories"]
+    for k, v in sess["session_verdicts"].items():
+        if k.startswith("exc/"):
+            counts["sessions/" + k] = v
     # (b) exhaustive fault enumeration generated by TLC
     res = run_tlc("DictFaults", "DictFaults.cfg", rd, workers=1, timeout=600)
     require_clean(res, "DictFaults")
@@ -248,9 +269,10 @@ def main(tier, replay=None):
         "distinct_nontrivial": len(nontriv),
         "traces_validated_against_impl": totals["traces"],
         "faults_enumerated": len(faults),
-        "rule": "(a) reduced mix of the generators of C01-C04, C07, C08, C11, C12, C15, C16 plus adversarial elimination shapes (empty lists, single "
+        "rule": "(a) reduced mix of the generators of C01-C04, C07, C08, C09 (spellings and malformed strings, including constants that divide by zero), "
+                "C11, C12, C15, C16 and the operation sessions of C13, plus adversarial elimination shapes (empty lists, single "
                 "variable, no context for several eliminated variables, cancelling rows, degenerate contexts); the exception class of every call "
-                "is judged by the family's trace specification; (b) every single-field deletion / kind change of a contract dictionary (both "
+                "is judged by the family's trace specification, and so is 'a failed call left its operands as they were'; (b) every single-field deletion / kind change of a contract dictionary (both "
                 "representations) and of a file entry, enumerated exhaustively by TLC from DictFaults.tla, through validate_contract_dict, "
                 "from_dict and read_contracts_from_file",
         "verdict_counts": counts,
